@@ -26,3 +26,8 @@ package function
 //@ ensures gated-on-the-argument-site (=> isReturnConsumer (= result.Controller (call |go.uber.org/nilaway/annotation.NewCallSiteParamKey| callee 0 (local argLoc))))
 //@ ensures ungated-otherwise (=> (not isReturnConsumer) (= result.Controller nil))
 //@ ensures locations-from-the-call (and (= (local argLoc) (call |(*go.uber.org/nilaway/util/analysishelper.EnhancedPass).PosToLocation| pass (mcall Pos (idx callExpr.Args 0)))))
+
+//@ -- C16: results are collected by index, so every started analysis must report exactly once
+//@ func analyzeFunc
+//@ prop C16
+//@ ghost sends-exactly-once
